@@ -30,7 +30,7 @@ def pParams (cs : Cs) : Option (Params × Cs) :=
           let tn : Option (Option Nat) := if t = "-" then some none else (t.toNat?).map some
           (match tn, st.toNat? with
            | some tn, some st =>
-             some ({ optional := o = "1", tagNumber := tn, explicit := e = "1", set := s = "1", openType := op = "1",
+             some ({ optional := o = "1", tagNumber := tn, explicit := e = "1" || e = "2", set := s = "1", openType := op = "1",
                      stringType := st }, rest')
            | _, _ => none)
         | _ => none)
